@@ -31,7 +31,7 @@ PrecM(kind) ==
       [] OTHER -> 0          \* names, constants, f-strings, yield, named expressions, starred
 
 \* _expression(): yield, non-empty tuples and named expressions always get parentheses
-ExprWrap(kind) == kind \in YieldKinds \cup TupleKinds \cup {"walrus"}
+ExprWrap(kind) == kind \in YieldKinds \cup TupleKinds \cup StarTupleKinds \cup {"walrus"}
 \* _testlist(): yield and named expressions only
 TestlistWrap(kind) == kind \in YieldKinds \cup {"walrus"}
 
@@ -76,7 +76,7 @@ ParensM(s, kind) ==
       [] s = "await.value" -> (p # 0 /\ 32 >= p) \/ ExprWrap(kind)
       [] s \in YieldBareSlots /\ kind \in YieldKinds -> FALSE
       [] s \in TestlistSlots -> TestlistWrap(kind)
-      [] s = "sub.index" -> IF kind \in TupleKinds THEN FALSE ELSE ExprWrap(kind)
+      [] s = "sub.index" -> IF kind \in TupleKinds \cup StarTupleKinds THEN FALSE ELSE ExprWrap(kind)
       [] s \in {"with.ctx", "with.ctx2"} -> ExprWrap(kind)          \* after the repair of D7 a tuple gets a second pair
       [] s = "match.guard" -> ExprWrap(kind) /\ kind # "walrus"      \* after the repair of D17; a bare named expression is printed as is
       [] s \in {"fstr.value", "fstr.value.conv", "fstr.value.spec", "fstr.spec.value"} -> ExprWrap(kind) \/ kind \in {"lambda", "lambda1"}
